@@ -132,3 +132,75 @@ def _ins_discrete_zeta(p):
 @sql("""INSERT INTO curvature (curvature_m_km2) VALUES (?)""", kind="insert", table="curvature", row=lambda p: (p[0],))
 def _ins_curvature(p):
     pass
+
+
+# --------------------------------------------------------------------------- rise.py / recession.py
+
+@sql("""SELECT epoch, zeta_mm FROM water_level ORDER BY epoch""", rows="tuple[int,real]")
+def _q_water_level(p, rows):
+    """The gridded water levels in time order (epoch is the primary key)."""
+    ensures(forall(0, len(rows), lambda j: forall(0, j, lambda i: rows[i][0] < rows[j][0])))
+
+
+@sql("""SELECT s.start_epoch, s.thru_epoch, zi.start_epoch, zi.thru_epoch FROM storm AS s
+        JOIN zeta_interval_storm AS zis ON s.start_epoch = zis.storm_start_epoch
+        JOIN zeta_interval AS zi ON zi.start_epoch = zis.interval_start_epoch ORDER BY s.start_epoch""",
+     rows="tuple[int,int,int,int]")
+def _q_matched_rises(p, rows):
+    """One row per recorded storm-rise pair: the storm and its rise (zeta_interval row referenced by the
+    pairing table, whose interval_type is 'storm' by its CHECK constraint); storms are distinct."""
+    ensures(forall(0, len(rows), lambda j: forall(0, j, lambda i: rows[i][0] < rows[j][0])))
+    ensures(forall(0, len(rows), lambda i: uf_int("is_matched_rise", rows[i][2], rows[i][0]) == 1))
+
+
+@sql("""SELECT total_depth_mm FROM storm_total_rain_depth WHERE storm_start_epoch = :storm_start_epoch""", rows="tuple[real]")
+def _q_total_depth(p, rows):
+    """The view's value for that storm (at most one row: storm_start_epoch is the storm's key)."""
+    ensures(len(rows) <= 1)
+    ensures(forall(0, len(rows), lambda i: rows[i][0] == uf_real("total_depth_of", p.storm_start_epoch)))
+
+
+@sql("""SELECT (grid_interval_mm) FROM zeta_grid""", rows="tuple[real]")
+def _q_grid_step(p, rows):
+    """zeta_grid is a singleton (CHECK id = TRUE) with a positive step."""
+    ensures(len(rows) <= 1)
+    ensures(forall(0, len(rows), lambda i: rows[i][0] > 0))
+
+
+@sql("""INSERT INTO rising_interval ( start_epoch, rain_depth_offset_mm) SELECT :start_epoch, :rain_depth_offset_mm""",
+     kind="insert", table="rising_interval", row=lambda p: (p.start_epoch, p.rain_depth_offset_mm))
+def _ins_rising_interval(p):
+    pass
+
+
+@sql("""INSERT INTO rising_interval_zeta ( start_epoch, zeta_number, mean_crossing_depth_mm)
+        SELECT :start_epoch, :discrete_zeta, :mean_crossing_depth_mm""",
+     kind="insert", table="rising_interval_zeta", row=lambda p: (p.start_epoch, p.discrete_zeta, p.mean_crossing_depth_mm))
+def _ins_rising_interval_zeta(p):
+    pass
+
+
+@sql("""SELECT start_epoch, thru_epoch FROM zeta_interval WHERE interval_type = 'interstorm' ORDER BY start_epoch""",
+     rows="tuple[int,int]")
+def _q_interstorms(p, rows):
+    ensures(forall(0, len(rows), lambda j: forall(0, j, lambda i: rows[i][0] < rows[j][0])))
+    ensures(forall(0, len(rows), lambda i: rows[i][0] < rows[i][1] and uf_int("is_interstorm_start", rows[i][0]) == 1))
+
+
+@sql("""SELECT EXISTS ( SELECT 1 FROM zeta_interval WHERE start_epoch = ? AND interval_type = 'interstorm' )""",
+     rows="tuple[int]", one_row=True)
+def _q_interstorm_exists(p, rows):
+    ensures(rows[0][0] == (1 if uf_int("is_interstorm_start", p[0]) == 1 else 0))
+
+
+@sql("""INSERT INTO recession_interval ( start_epoch, time_offset_s) SELECT :start_epoch, :time_offset_s""",
+     kind="insert", table="recession_interval", row=lambda p: (p.start_epoch, p.time_offset_s))
+def _ins_recession_interval(p):
+    pass
+
+
+@sql("""INSERT INTO recession_interval_zeta ( start_epoch, zeta_number, mean_crossing_time)
+        SELECT :start_epoch, :discrete_zeta, :mean_crossing_time_s""",
+     kind="insert", table="recession_interval_zeta", row=lambda p: (p.start_epoch, p.discrete_zeta, p.mean_crossing_time_s))
+def _ins_recession_interval_zeta(p):
+    pass
